@@ -76,7 +76,7 @@ TEXTS = {
                 "terms of every record) then every term has in both the same parents, children, ancestor cache, three annotation sets and "
                 "information content; and observations accepted by spec_C16 are pairwise identical. The check builds every fact set in "
                 "three independent random orders (incl. leaf-first / root-first supplies of 36-90-term chains) with the real Builder and with "
-                "the model and demands identical canonical dumps. ACROSS CONSTRUCTION PATHS (C16_constructed_ontologies_with_same_facts_agree): any two ontologies produced by public constructors (Builder, JAX loaders, from_bytes, sub_ontology, nested) that state the same direct facts agree term by term on all derived data.",
+                "the model and demands identical canonical dumps. ACROSS CONSTRUCTION PATHS (C16_constructed_ontologies_with_same_facts_agree): any two ontologies produced by public constructors (Builder, JAX loaders, from_bytes, sub_ontology, nested) that state the same direct facts agree term by term on all derived data. TEXT AND BINARY FILES: C16_text_files_any_order (stanzas of hp.obo and rows of both annotation files permuted: the two loaded ontologies agree on all derived data), C16_text_files_order_irrelevant, C16_binary_record_order_irrelevant.",
         "design_ref": "DESIGN.md §4 C16, §9", "note": NOTE_COMMON, "technique": TECH,
     },
     "C19": {
